@@ -12,6 +12,12 @@
 //! (a token that starts with `=` and is longer is `=` followed by the rest) is likewise from
 //! the property statement.
 //!
+//! FPO and extreme size fields: the FPO formulae are documented as plain sums over a 32-bit
+//! `$esp`; the property demands a clean failure for extreme size fields. A return slot
+//! `$esp + frame_size` at or past 2^32 (no wrapping) therefore must fail cleanly; only the
+//! return address in the last word of the address space (caller `$esp` = 2^32) and the leftover
+//! skip stepping past that word are left open.
+//!
 //! Where documentation and property leave the outcome open, the reference says so:
 //! `Open` (nothing but totality is checked) or `or_none` (the computed registers, or a clean
 //! failure, are both accepted).
